@@ -353,8 +353,8 @@ impl<Db: Database> StorageManager<Db> {
             .tic_toc(METRIC_READ_TIME, self.db.get::<St>(id))
             .await?;
         if let Some(cache) = &self.cache {
-            // cache the result
-            cache.put(&record).await;
+            // cache the result (unless a newer version was cached while we were reading)
+            cache.put_if_absent(&record).await;
         }
         Ok(record)
     }
@@ -403,9 +403,9 @@ impl<Db: Database> StorageManager<Db> {
                 .tic_toc(METRIC_READ_TIME, self.db.batch_get::<St>(&keys))
                 .await?;
 
-            // cache the db returned results
+            // cache the db returned results (unless newer versions were cached while we were reading)
             if let Some(cache) = &self.cache {
-                cache.batch_put(&results).await;
+                cache.batch_put_if_absent(&results).await;
             }
 
             records.append(&mut results);
@@ -488,7 +488,9 @@ impl<Db: Database> StorageManager<Db> {
         if let Some(state) = maybe_db_state {
             // cache the item for future access
             if let Some(cache) = &self.cache {
-                cache.put(&DbRecord::ValueState(state.clone())).await;
+                cache
+                    .put_if_absent(&DbRecord::ValueState(state.clone()))
+                    .await;
             }
 
             Ok(state)
